@@ -41,6 +41,9 @@ def plan(ctx):
     B = "MCBlockBuf"
     jobs = []
     jobs.append(dict(module=B, cfg="MCBlockBuf_emit_c02", kind="emit", pre=2, nh=3, workers=1))
+    # dup (the sibling), append (a later segment shared with the sibling), any cutting / growing call,
+    # final content of every handle
+    jobs.append(dict(module=B, cfg="MCBlockBuf_emit_sw2", kind="emit", pre=2, nh=4, workers=1))
     jobs.append(dict(module=B, cfg="MCBlockBuf_sim_c02", kind="sim", pre=2, nh=4, simulate=600 if q else 20000, depth=14))
     jobs.append(dict(module=B, cfg="MCBlockBuf_neg_nosingle", kind="neg"))
     jobs.append(dict(module=B, cfg="MCBlockBuf_c02_q", kind="pos", workers=2))
